@@ -18,6 +18,17 @@ def T(quick, thorough, floor=200, **kw):
 
 
 PROPS = {
+    "C18": T(1500, 40000,
+             rule="graph6 (40% of the cases): simple undirected graph on n nodes, n in 0..=70 with 61..64 and 0..3 over-sampled (thorough: "
+                  "also 100..320), 10 families; graph6_string() on Graph (shuffled history), StableGraph with vacancies, GraphMap, "
+                  "MatrixGraph with removed ids and Csr must equal the harness' own byte-level encoder applied to the adjacency in "
+                  "node_identifiers order, and from_graph6_string of an independently encoded string must rebuild exactly the graph in "
+                  "all five types. Dot (60%): graphs with node/edge weight strings over an adversarial alphabet (quotes, backslashes, "
+                  "newlines, CR, brackets, braces, '->', 'label', a full injected statement, trailing backslash) in StableGraph with "
+                  "holes, Graph, Csr, MatrixGraph with a removed id and a NodeFiltered view; 3 of the 160 Config combinations per case "
+                  "(one enumerated by case index, so all 160 are covered) x Display/Debug/{:#}/{:#?}; output tokenized and parsed by "
+                  "the harness' DOT parser and compared statement by statement; non-trivial = >=3 nodes and >=2 edges (graph6) / >=2 "
+                  "nodes and >=1 edge (Dot); distinct = hash of the input"),
     "C17": T(2500, 60000, sites=["serde_link_edges_graph", "serde_link_edges_stable"],
              t={"legs": ["debug", "release", "asan"], "asan_cases_per_shard": 8000},
              rule="six workload kinds: (1) round trips of StableGraphs reached by mutation histories (vacancies frequent) through JSON "
